@@ -409,7 +409,9 @@ class RainbowDQN(RLAlgorithm):
                 else:
                     elementwise_loss = n_step_elementwise_loss
 
-            loss = torch.mean(elementwise_loss * weights)
+            # NOTE: The buffer returns the weights as a column (batch, 1): flatten them so that
+            # every sample is weighted by its own importance weight
+            loss = torch.mean(elementwise_loss * weights.reshape(-1))
 
         else:
             if n_step:
